@@ -55,6 +55,7 @@ randomx_argon2_impl* randomx_argon2_impl_avx2() {
 #include "blake2/blamka-round-avx2.h"
 #include "blake2/blake2-impl.h"
 #include "blake2/blake2.h"
+#include "verif_hooks.h"
 
 static void fill_block(__m256i* state, const block* ref_block,
 	block* next_block, int with_xor) {
@@ -168,6 +169,7 @@ void randomx_argon2_fill_segment_avx2(const argon2_instance_t* instance,
 				fill_block(state, ref_block, curr_block, 1);
 			}
 		}
+		RANDOMX_VERIF_YIELD(RANDOMX_VERIF_SITE_ARGON_BLOCK);
 	}
 }
 
